@@ -57,8 +57,8 @@ theorem any_optAttr_bad_syntax (n : Str) (hn : badAttrName n = false) (o : Optio
   cases o <;> simp [optAttr, isBadAttr, hn]
 
 theorem any_optAttr_unsup (ns n : Str) (hns : ns ≠ []) (o : Option Str) :
-    (optAttr ns n o).any (fun a => decide (a.ns = [])) = false := by
-  cases o <;> simp [optAttr, hns]
+    (optAttr ns n o).any isUnsupAttr = false := by
+  cases o <;> simp [optAttr, isUnsupAttr, hns]
 
 theorem props_not_bad {ps : List Attr} (h : ∀ a ∈ ps, isPropAttr a = true) : ps.any isBadAttr = false := by
   rw [List.any_eq_false]
@@ -72,12 +72,12 @@ theorem props_not_bad {ps : List Attr} (h : ∀ a ∈ ps, isPropAttr a = true) :
   · exact h3.1
 
 theorem props_not_unsup {ps : List Attr} (h : ∀ a ∈ ps, isPropAttr a = true) :
-    ps.any (fun a => decide (a.ns = [])) = false := by
+    ps.any isUnsupAttr = false := by
   rw [List.any_eq_false]
   intro a ha
   have := h a ha
   simp [isPropAttr] at this
-  simp [this.1.1]
+  simp [isUnsupAttr, this.1.1]
 
 /-- Reading back: the attribute record of the attributes written for `i` is `i`. -/
 theorem info_stdAttrs (i : AttrInfo) (hp : ∀ a ∈ i.props, isPropAttr a = true)
@@ -121,7 +121,7 @@ theorem info_stdAttrs (i : AttrInfo) (hp : ∀ a ∈ i.props, isPropAttr a = tru
       any_optAttr_bad_syntax _ (by decide), any_optAttr_bad_syntax _ (by decide),
       any_optAttr_bad_syntax _ (by decide), any_optAttr_bad_syntax _ (by decide)]
     rfl
-  have e11 : (stdAttrs i).any (fun a => decide (a.ns = [])) = false := by
+  have e11 : (stdAttrs i).any isUnsupAttr = false := by
     simp only [stdAttrs, List.any_append, props_not_unsup hp,
       any_optAttr_unsup _ _ xmlNS_ne_nil, any_optAttr_unsup _ _ rdfNS_ne_nil]
     rfl
